@@ -332,6 +332,11 @@ def class_table_rule(syn, crate, prop, rule="C12.R1"):
                 r.fail(prop, "repr-unrecognised %s" % o["ty"], "cannot classify the TypeScript form of %s" % o["ty"], o["file"], o["line"])
             continue
         wants = want if isinstance(want, list) else [want]
+        if got is None and o["how"].startswith(("impl", "impl_tuples")):
+            # the shape of name() could not be read (built by helpers / macros this reader does not follow): not decided
+            r.inst(type=o["ty"], got=None, expected=wants, verdict="undecided: the text name() returns could not be read", where=where, how=o["how"])
+            r.fail(prop, "anchor-missing shape of %s" % o["ty"], "what `<%s as TS>::name()` returns could not be read off the code" % o["ty"], o["file"], o["line"])
+            continue
         if got == "undecided":
             r.inst(type=o["ty"], got=None, expected=wants, verdict="undecided: the macro that writes this impl is not read from source and the impl is not part of this build", where=where, how=o["how"])
             continue
@@ -344,7 +349,13 @@ def class_table_rule(syn, crate, prop, rule="C12.R1"):
             r.fail(prop, "name-inline-disagree %s" % o["ty"], "name() uses %s but inline() uses %s" % (o["name_literals"], o["inline_literals"]), o["file"], o["line"])
     # required std types present
     have = {re.sub(r"<.*$", "", o["ty"]) for o in impls[1:]} | {o["ty"] for o in impls[1:]}
+    mir_have = {re.sub(r"<.*$", "", norm_ty(re.sub(r"\b(\w+::)+", "", b.raw.get("impl_self") or ""))) for b in crate.bodies if b.raw.get("impl_trait") == "TS"} | \
+        {norm_ty(re.sub(r"\b(\w+::)+", "", b.raw.get("impl_self") or "")) for b in crate.bodies if b.raw.get("impl_trait") == "TS"}
     for t in ref["required"]:
+        if t not in have and t in mir_have:
+            r.inst(type=t, note="impl written by a macro the source reader does not follow; present among the expanded impls")
+            r.fail(prop, "anchor-missing shape of %s" % t, "the impl of TS for %s exists (expanded program) but is written by a macro this reader does not follow" % t)
+            continue
         if t not in have:
             r.fail(prop, "impl-missing %s" % t, "no built-in impl TS for %s" % t)
     # tuples: arity 10
@@ -376,9 +387,14 @@ def class_table_rule(syn, crate, prop, rule="C12.R1"):
         deleg = any(fn_matches(t, r"TS::%s$" % meth) and (t["fn"].get("args") or [""])[0].startswith("std::vec::Vec<") for _, t in b.calls()) or \
             any(kind == "fn" and isinstance(v, dict) and v.get("path", "").endswith("TS::%s" % meth) and (v.get("args") or [""])[0].startswith("std::vec::Vec<") for kind, v in crate.address_taken(b))
         r.inst(impl="[T; N]", method=meth, repeats_0_to_N=rng, limit_switch=limit, long_arrays_delegate_to_vec=deleg)
-        if not rng:
+        other_ranges = [st for blk in range(b.n) for st in b.stmts(blk) if st["k"] == "assign" and st["rv"]["k"] == "agg" and st["rv"].get("adt") == "std::ops::Range"]
+        if not rng and not other_ranges:
+            r.fail(prop, "anchor-missing array repetition in [T; N]::%s" % meth, "no `0..N` range found in the array impl (the repetition is written another way)", b.file(), b.line())
+        elif not rng:
             r.fail(prop, "array-repetition [T; N]::%s" % meth, "the tuple form of [T; N] is not produced by iterating exactly 0..N (a zero-length or off-by-one array would get the wrong arity)", b.file(), b.line())
-        if not (limit and deleg):
+        if not (limit and deleg) and not rng:
+            pass        # reported as undecided above
+        elif not (limit and deleg):
             r.fail(prop, "array-limit [T; N]::%s" % meth, "no `N > ARRAY_TUPLE_LIMIT` switch to the Vec form", b.file(), b.line())
     r.floor = 72
     return r
